@@ -66,6 +66,31 @@ CLAIMED = {
              "whole-minute offset within +-24 h in the thorough tier).",
         design="DESIGN §8 C18",
         technique="Lean 4 proof + model/implementation correspondence with the OS zone data patched"),
+    "C12": dict(
+        text="Theorems over the Lean model of TimeRecurrence.__init__/__iter__/get_next/get_prev: for exact intervals of "
+             "any size, every notation, bounded or unbounded, any anchor, any mode: iteration yields exactly the series "
+             "(start, start+d, ... / end, end-d, ...) as valid points in the anchor's representation and offset; n "
+             "repetitions yield exactly n strictly increasing points including the anchor; start/second-point iterates "
+             "like start/duration with the exact difference; one repetition or a zero interval yields exactly the anchor. "
+             "Month/year intervals: proved counter-witness for the bounded count (known finding F5, matched by its "
+             "mechanism), otherwise correspondence only.",
+        design="DESIGN §8 C12",
+        technique="Lean 4 proof (induction over iteration, refinement to an arithmetic series of instants) + correspondence"),
+    "C13": dict(
+        text="Theorems for exact intervals: get_next/get_prev give the point one interval away iff it is within bounds "
+             "(None at the ends), r[i] is the i-th iterated point / IndexError, get_is_valid is membership of the iterated "
+             "series by instant (early exits sound), and the closed form of get_first_after is the earliest member strictly "
+             "later than the probe, the start before the series, None after it. Month/year intervals: correspondence only.",
+        design="DESIGN §8 C13",
+        technique="Lean 4 proof + model/implementation correspondence"),
+    "C14": dict(
+        text="Theorems: shifting a start/duration recurrence by an exact duration is the recurrence with the same "
+             "repetitions and interval and the start moved, so every point moves by exactly that length; single-point "
+             "recurrences keep their anchor (F4); (r+x)-x == r; equality holds exactly when repetitions, start, end "
+             "(by instant) and interval agree; equal recurrences have equal hash keys. Other notations and the text round "
+             "trip are covered by the correspondence (rshift/req/rhasheq/rtext ops), the latter not yet modelled.",
+        design="DESIGN §8 C14",
+        technique="Lean 4 proof + model/implementation correspondence"),
     "C03": dict(
         text="Theorems over the Lean model: the six conversions are total on valid dates, produce valid dates and "
              "preserve the Spec day number (so all round trips are identities), for every year in Int and all four "
